@@ -1,8 +1,15 @@
 /-
-C09 — source tie (see Props/C03Src.lean for what that is): the funding take, x/perpetual/types/calc_take_amount.go.
+C09 — source tie (see Props/C03Src.lean for what that is): the funding take (x/perpetual/types/calc_take_amount.go), what a close
+returns (x/perpetual/keeper/estimate_and_repay.go `CalcReturnAmount`) and the band of the pool's borrow interest rate
+(x/perpetual/keeper/keeper.go `BorrowInterestRateComputation`) — the three computations that decide how much of a position's
+custody leaves it.
 Property theorems only.
 -/
 import ElysModel.Gen.Arith.calcTakeAmount
+import ElysModel.Gen.Arith.calcReturnAmount
+import ElysModel.Gen.Arith.borrowInterestRateComputation
+import ElysModel.Gen.Arith.Table
+import ElysModel.Lemmas.GenTie
 import ElysModel.Lemmas.AmmBase
 import ElysModel.Lemmas.AmmRound
 namespace Elys.Perp.C09Src
@@ -34,5 +41,53 @@ theorem take_le_custody (c rate t : Int) (hc : 0 ≤ c) (hr : -P ≤ rate ∧ ra
 
 /-- non-vacuity: custody 1 000 000 at a funding rate of −0.3 % takes 3000. -/
 example : Gen.Arith.calcTakeAmount 1000000 (-3000000000000000) = .ok 3000 := by rfl
+
+/-- what a close returns to the owner, as the source computes it now, is never negative and never more than the custody
+being closed minus what is repaid: the part of the custody that backs the repayment cannot be paid out as well. -/
+theorem return_le_closing (repay ratio custody ret : Int) (hc : 0 ≤ custody) (hr : 0 ≤ ratio ∧ ratio ≤ P) (hp : 0 ≤ repay)
+    (h : Gen.Arith.calcReturnAmount repay ratio custody = .ok ret) : 0 ≤ ret ∧ ret + repay ≤ max repay custody := by
+  unfold Gen.Arith.calcReturnAmount at h
+  obtain ⟨t1, h1, h⟩ := bind_ok h
+  unfold mulC at h1
+  have := chk_ok h1
+  subst this
+  unfold Dec.mul at h
+  have e : custody * P * ratio = (custody * ratio) * P := by
+    rw [Int.mul_assoc, Int.mul_comm P ratio, ← Int.mul_assoc]
+  rw [e, round2_mul_P] at h
+  have hpp : 0 < P := P_pos
+  have h0 : 0 ≤ custody * ratio := Int.mul_nonneg hc hr.1
+  have h1 : custody * ratio ≤ custody * P := Int.mul_le_mul_of_nonneg_left hr.2 hc
+  have hcl : (custody * ratio).tdiv P ≤ custody := by
+    have : (custody * ratio).tdiv P ≤ (custody * P).tdiv P := Int.tdiv_le_tdiv hpp h1
+    rwa [Int.mul_tdiv_cancel _ (by omega)] at this
+  have hcl0 : 0 ≤ (custody * ratio).tdiv P := Int.tdiv_nonneg h0 (by omega)
+  generalize (custody * ratio).tdiv P = cl at *
+  by_cases hlt : cl < repay
+  · simp [hlt] at h; cases h; omega
+  · simp [hlt] at h; cases h; omega
+
+/-- the perpetual pool's borrow interest rate as the source computes it now stays inside the governance band [min, max]. -/
+theorem borrow_rate_in_band (found : Bool) (mx mn inc dec hgf prev long : Int) (lerr : Bool) (short : Int) (serr : Bool) (r : Int) (hmm : mn ≤ mx)
+    (h : Gen.Arith.borrowInterestRateComputation found mx mn inc dec hgf prev long lerr short serr = .ok r) : mn ≤ r ∧ r ≤ mx := by
+  unfold Gen.Arith.borrowInterestRateComputation at h
+  cases found <;> cases lerr <;> cases serr <;> simp at h
+  obtain ⟨t1, _, h⟩ := bind_ok h
+  obtain ⟨t2, _, h⟩ := bind_ok h
+  obtain ⟨t3, _, h⟩ := bind_ok h
+  obtain ⟨t4, _, h⟩ := bind_ok h
+  obtain ⟨ir, _, h⟩ := bind_ok h
+  exact clamp_in ir mn mx r hmm h
+
+/-- what the two keeper functions read besides their arguments. -/
+theorem gen_free_calcReturnAmount : Gen.Arith.freeOf "calcReturnAmount" = ["#1.Custody"] := by decide
+
+theorem gen_free_borrowRate : Gen.Arith.freeOf "borrowInterestRateComputation" =
+    ["#0.amm.GetPool(#1, #2.AmmPoolId)#1", "#0.GetBorrowInterestRateMax(#1)", "#0.GetBorrowInterestRateMin(#1)",
+     "#0.GetBorrowInterestRateIncrease(#1)", "#0.GetBorrowInterestRateDecrease(#1)", "#0.GetHealthGainFactor(#1)", "#2.BorrowInterestRate",
+     "#0.BorrowInterestRateComputationByPosition(#2, #0.amm.GetPool(#1, #2.AmmPoolId), types.Position_LONG)",
+     "#0.BorrowInterestRateComputationByPosition(#2, #0.amm.GetPool(#1, #2.AmmPoolId), types.Position_LONG)#err",
+     "#0.BorrowInterestRateComputationByPosition(#2, #0.amm.GetPool(#1, #2.AmmPoolId), types.Position_SHORT)",
+     "#0.BorrowInterestRateComputationByPosition(#2, #0.amm.GetPool(#1, #2.AmmPoolId), types.Position_SHORT)#err"] := by decide
 
 end Elys.Perp.C09Src
